@@ -210,8 +210,16 @@ def regen_modules(root, pid):
     return mods
 
 
+# corollaries at the real instance cxA (hypotheses cx.WF / DefaultsOk / positive byte lengths discharged)
+REGEN_CXA = {"Chars": ["editorChars_cxA"], "Lines": ["editorLinesSel_cxA"], "Edit": ["editorInsert_cxA", "editorDelete_cxA"],
+             "WrapOpts": ["editorWrapOpts_cxA"], "IndentOpts": ["editorIndentOpts_cxA"],
+             "Paras": ["editorApplyGParagraphsOpts_cxA", "defaultsOk_cxA", "literal_map_cxA"],
+             "InsertTable": ["editorInsertTableOpts_cxA"]}
+
+
 def regen_theorems(pid):
-    return ["RosedVerif.GenCodeEq.%s_regenerated" % f for g in REGEN_OF.get(pid, []) for f in REGEN[g]]
+    return (["RosedVerif.GenCodeEq.%s_regenerated" % f for g in REGEN_OF.get(pid, []) for f in REGEN[g]] +
+            ["RosedVerif.GenCodeEq." + t for g in REGEN_OF.get(pid, []) for t in REGEN_CXA.get(g, [])])
 
 
 def theorems_of(root, pid):
